@@ -1221,32 +1221,6 @@ where
         })
     }
 
-    /// Persist the current subscription table to `kv`, one record per key.
-    ///
-    /// A no-op when the store is a dummy (no scratch buffer). Best-effort: a
-    /// persistence failure is logged but never propagated, so it cannot break
-    /// reporting — persisting subscriptions is spec-optional.
-    ///
-    /// Compiled to a no-op unless the `persistent-subscriptions` feature is
-    /// enabled, so the whole persistence path (TLV serialization, the key-value
-    /// store writes) is dropped from a device that does not want it.
-    #[cfg(feature = "persistent-subscriptions")]
-    fn persist_subscriptions(&self) {
-        let result = self.kv.access(|store, buf| {
-            self.state
-                .subscriptions
-                .persist_all(&self.subscriptions_buffers, store, buf)
-        });
-
-        if let Err(e) = result {
-            warn!("Failed to persist subscriptions: {:?}", e);
-        }
-    }
-
-    #[cfg(not(feature = "persistent-subscriptions"))]
-    #[inline(always)]
-    fn persist_subscriptions(&self) {}
-
     /// Re-hydrate the subscription table from `kv` and re-arm the reporter.
     ///
     /// Driven by [`InteractionModel::startup`], after the events state has been
@@ -1759,6 +1733,39 @@ where
     }
 }
 
+impl<C, B, T, K, N, NC, R, const NS: usize, const NE: usize>
+    InteractionModel<'_, C, B, T, K, N, NC, R, NS, NE>
+where
+    B: Buffers<IMBuffer>,
+    K: KvBlobStoreAccess,
+{
+    /// Persist the current subscription table to `kv`, one record per key.
+    ///
+    /// A no-op when the store is a dummy (no scratch buffer). Best-effort: a
+    /// persistence failure is logged but never propagated, so it cannot break
+    /// reporting — persisting subscriptions is spec-optional.
+    ///
+    /// Compiled to a no-op unless the `persistent-subscriptions` feature is
+    /// enabled, so the whole persistence path (TLV serialization, the key-value
+    /// store writes) is dropped from a device that does not want it.
+    #[cfg(feature = "persistent-subscriptions")]
+    fn persist_subscriptions(&self) {
+        let result = self.kv.access(|store, buf| {
+            self.state
+                .subscriptions
+                .persist_all(&self.subscriptions_buffers, store, buf)
+        });
+
+        if let Err(e) = result {
+            warn!("Failed to persist subscriptions: {:?}", e);
+        }
+    }
+
+    #[cfg(not(feature = "persistent-subscriptions"))]
+    #[inline(always)]
+    fn persist_subscriptions(&self) {}
+}
+
 impl<C, B, T, K, N, NC, R, const NS: usize, const NE: usize> HandlerContext
     for InteractionModel<'_, C, B, T, K, N, NC, R, NS, NE>
 where
@@ -1801,6 +1808,50 @@ where
     }
 
     fn notify_fabric_removed(&self, fab_idx: NonZeroU8) {
+        // Nothing bound to the fabric may outlive it: its local index is handed
+        // out again to a fabric added later, which must not inherit anything
+        // of the removed one. This runs in the same (synchronous) step as the
+        // removal itself, on every path by which a fabric disappears
+        // (`RemoveFabric`, a fail-safe rollback, a failed `AddNOC`).
+
+        // The session resumption records of the fabric - in memory and in the
+        // persisted copy. The latter is otherwise written only by the debounced
+        // background task: a restart before its next run would bring the records
+        // of the removed fabric back.
+        #[cfg(feature = "case-resumption")]
+        {
+            let result = self.matter.with_state(|state| {
+                state.resumption.remove_for_fabric(fab_idx);
+
+                self.kv
+                    .access(|store, buf| state.resumption.store_persist(store, buf))
+            });
+
+            if let Err(e) = result {
+                warn!(
+                    "Failed to persist the CASE session resumption cache after the removal of fabric {}: {:?}",
+                    fab_idx, e
+                );
+
+                // Let the background task retry
+                self.matter.transport().notify_resumption_dirty();
+            }
+        }
+
+        // The subscriptions of the fabric. (The reporter would drop them too, but
+        // only when it runs next, and only as long as no other fabric has got the
+        // same local index by then.)
+        let removed = self
+            .state
+            .subscriptions
+            .remove(&self.subscriptions_buffers, |sub| {
+                (sub.ids().fab_idx == fab_idx).then_some("fabric removed")
+            });
+
+        if removed {
+            self.persist_subscriptions();
+        }
+
         if let Err(e) = self
             .handler
             .lifecycle(self, LifecycleOp::FabricRemoval { fab_idx })
